@@ -8,7 +8,7 @@ SPEC = dict(
           "12 bytes .. 20xMTU incl. packet-capacity boundaries and runs of equal-sized Messages, message ids moved to random bases and across "
           "2^32, Write() returning 0 at random moments and accepting again, output driven as an event loop does: DoOutput() only while HasBytesToOutput()) and a family of fault scripts, each run on a fresh receiver: leg 'exh' = exhaustive over a "
           "window of <= 6 consecutive packets of the merged sequence (every subset lost, every permutation, one duplicate at every position; "
-          "the full product for windows <= 4; the whole sequence when it has <= 6 packets), leg 'sampled' = identity + 8 sampled scripts "
+          "the full product for windows <= 4; the whole sequence when it has <= 6 packets), leg 'stream' = the same scenarios with one sender over a perfect transport of another kind: both gateways on a PacketizedProxyDataIO over an in-memory byte FIFO whose Read()/Write() move 0 (would block), 1-7, a random amount or everything per call and deliberately end inside the 4-byte length prefixes (splits 1/3, 2/2, 3/1 counted), sender and receiver pumped alternately like an event loop, identity oracle; leg 'sampled' = identity + 8 sampled scripts "
           "(loss p, duplication p, reorder window w, sender interleaving) on sequences of up to ~750 packets.  Oracle: every delivered Message is "
           "byte-identical to a Message sent by the sender whose address it is attributed to; identity script: per sender delivered list == "
           "sent list restricted to the gateway's limits, in order, exactly once.  A case is non-trivial when a Message spans several packets "
@@ -24,6 +24,8 @@ SPEC = dict(
         Leg('regress', 'h_tunnel', 'asan', opts={'mode': 'regress'}, quick=1, thorough=1, workers=1, leaks=True, min_cases=1),
         Leg('exh', 'h_tunnel', 'asan', opts={'mode': 'exh'}, quick=5000, thorough=300000, workers=16, leaks=True),
         Leg('sampled', 'h_tunnel', 'asan', opts={'mode': 'sampled'}, quick=24000, thorough=1500000, workers=16, leaks=True),
+        Leg('stream', 'h_tunnel', 'asan', opts={'mode': 'stream'}, quick=8000, thorough=400000, workers=16, leaks=True),
+        Leg('memcheck_stream', 'h_tunnel', 'plain', opts={'mode': 'stream'}, quick=240, thorough=8000, workers=16, valgrind=True),
         Leg('memcheck', 'h_tunnel', 'plain', opts={'mode': 'sampled'}, quick=480, thorough=16000, workers=16, valgrind=True),
         Leg('memcheck_exh', 'h_tunnel', 'plain', opts={'mode': 'exh'}, quick=96, thorough=3200, workers=16, valgrind=True),
     ],
@@ -40,5 +42,11 @@ SPEC = dict(
                            'tunnel_messages_fragmented': 75000, 'messages_sent_after_id_wraparound': 7500, 'mini_packets_deflated': 11250,
                            'mini_messages_fitting_the_mtu_exactly': 4500, 'max_packets_in_a_case': 500, 'messages_delivered_under_faults': 750000,
                            'messages_lost_to_faults': 450000, 'write_holds': 30000, 'held_packets_flushed_via_HasBytesToOutput': 4000,
-                           'messages_sent_after_id_wraparound_by_setter': 3000, 'mini_packets_sent_after_packet_id_wraparound': 3750}},
+                           'messages_sent_after_id_wraparound_by_setter': 3000, 'mini_packets_sent_after_packet_id_wraparound': 3750},
+               'stream': {'stream_cases': 7500, 'length_prefixes_split_across_reads': 60000, 'length_prefixes_split_across_writes': 40000,
+                          'length_prefix_split_across_reads_1_3': 10000, 'length_prefix_split_across_reads_2_2': 10000, 'length_prefix_split_across_reads_3_1': 10000,
+                          'length_prefix_split_across_writes_1_3': 8000, 'length_prefix_split_across_writes_2_2': 8000, 'length_prefix_split_across_writes_3_1': 8000,
+                          'stream_would_block_reads': 100000, 'stream_would_block_writes': 100000, 'stream_cases_kind_tunnel': 2500, 'stream_cases_kind_mini': 1200,
+                          'stream_cases_mini_zlib': 1000, 'stream_cases_kind_tunnel+slave': 150, 'stream_cases_kind_mini+slave': 350, 'stream_cases_kind_tunnel+slavezlib': 200,
+                          'stream_packets': 90000, 'max_stream_packets_in_a_case': 300}},
 )
